@@ -62,7 +62,7 @@ def gen_cases(ctx, count):
         sym = 1 if rng.random() < 0.45 else 0
         theta = rng.choice(THETAS)
         tap = 1 if rng.random() < 0.5 else 0
-        ppn = rng.choice([4, 2, 2, 1]) if tap else 4
+        ppn = rng.choice([q for q in (4, 2, 2, 1) if P % q == 0 or q == 4]) if tap else 4   # TAPComm needs full nodes
         nv = rng.choice([1, 1, 2, 3])
         if nv == 1: vars_ = [0] * n
         elif rng.random() < 0.7: vars_ = [i % nv for i in range(n)]   # interleaved unknowns
